@@ -4,6 +4,8 @@ package c05
 import (
 	"context"
 	"fmt"
+	"math"
+	"math/big"
 	"math/rand/v2"
 	"runtime"
 	"sync"
@@ -495,6 +497,73 @@ func defaultsCtorCase(idx int64, r *rand.Rand) {
 	rt.Distinct(fmt.Sprintf("defctor|%s|%d|%v", sk.name, arg, sk.nums))
 }
 
+// decimalShares: partitions whose fraction is a decimal (k/100, not exactly representable).  The share of total T is the
+// documented round-up of T x fraction, at least 1.  Evaluated on the float64 the caller really passed, that is one of
+// (at most) two numbers: the round-up of the float product and the round-up of the exact product - usually the same.
+func decimalShares(idx int64, r *rand.Rand) {
+	accepted := func(total int, pct float64) (int, int) {
+		f := int(math.Max(1, math.Ceil(float64(total)*pct)))
+		ex := new(big.Rat).SetFloat64(pct)
+		ex.Mul(ex, new(big.Rat).SetInt64(int64(total)))
+		q := new(big.Int).Quo(ex.Num(), ex.Denom())
+		e := int(q.Int64())
+		if new(big.Rat).SetInt(q).Cmp(ex) < 0 {
+			e++
+		}
+		if e < 1 {
+			e = 1
+		}
+		return f, e
+	}
+	for i := 0; i < 150; i++ {
+		pct := float64(1+r.IntN(99)) / 100
+		if r.IntN(3) == 0 {
+			pct = []float64{0.55, 0.28, 0.07, 0.14, 0.56, 0.29, 0.57, 0.58}[r.IntN(8)]
+		}
+		total := 1 + r.IntN(300)
+		if r.IntN(3) == 0 {
+			total = []int{50, 100, 180, 200}[r.IntN(4)]
+		}
+		total2 := 1 + r.IntN(300)
+		kind := "lookup"
+		var binLimit func() int
+		var setLimit func(int)
+		if r.IntN(2) == 0 {
+			lp := strategy.NewLookupPartitionWithMetricRegistry("a", pct, 1, core.EmptyMetricRegistryInstance)
+			st, err := strategy.NewLookupPartitionStrategyWithMetricRegistry(map[string]*strategy.LookupPartition{"a": lp}, nil, int32(total), core.EmptyMetricRegistryInstance)
+			if err != nil {
+				panic(err)
+			}
+			binLimit, setLimit = func() int { v, _ := st.BinLimit("a"); return v }, st.SetLimit
+		} else {
+			kind = "predicate"
+			pp := strategy.NewPredicatePartitionWithMetricRegistry("a", pct, func(context.Context) bool { return true }, core.EmptyMetricRegistryInstance)
+			st, err := strategy.NewPredicatePartitionStrategyWithMetricRegistry([]*strategy.PredicatePartition{pp}, int32(total), core.EmptyMetricRegistryInstance)
+			if err != nil {
+				panic(err)
+			}
+			binLimit, setLimit = func() int { v, _ := st.BinLimit(0); return v }, st.SetLimit
+		}
+		for step, tot := range []int{total, total2} {
+			if step == 1 {
+				setLimit(tot)
+			}
+			got := binLimit()
+			f, e := accepted(tot, pct)
+			rt.Count("decimal_share_checks", 1)
+			if f != e {
+				rt.Count("decimal_share_checks_with_two_admissible_roundings", 1)
+			}
+			if got != f && got != e {
+				rt.Violation("C05/"+kind+"/partition-share-not-the-round-up-of-total-times-fraction", idx, rt.J{"fraction": pct, "total": tot, "share": got,
+					"round_up_of_the_float_product": f, "round_up_of_the_exact_product": e, "after": []string{"construction", "SetLimit"}[step]})
+				return
+			}
+		}
+	}
+	rt.Distinct(fmt.Sprintf("dec|%d", idx))
+}
+
 func TestCheck(t *testing.T) {
 	rt.Cases(2000, 400000, func(idx int64) {
 		r := rt.CaseRand(5, idx)
@@ -505,6 +574,10 @@ func TestCheck(t *testing.T) {
 		}
 		if idx%20 == 13 {
 			defaultsCtorCase(idx, r)
+			return
+		}
+		if idx%20 == 3 {
+			decimalShares(idx, r)
 			return
 		}
 		scenario(t, idx, r)
